@@ -100,7 +100,10 @@ def check_matching(pid, ests, gts, ests_before, gts_before, res, exc, score, pol
         and all(a is b for a, b in zip(gts, gts_before))
     )
     if foreign or not parts["c01_estimate_at_most_once"] or not parts["c01_gt_at_most_once"]:
+        # not an assignment at all (an object used twice / a foreign object): it cannot be the greedy assignment either
+        parts["c02_result_is_an_assignment"] = False
         return parts, {"pairs": pairs}
+    parts["c02_result_is_an_assignment"] = True
 
     # ---- C02: stepwise greedy (each paired result is a best available pair of its stage) ...
     rem_e, rem_g = set(range(n)), set(range(m))
@@ -256,13 +259,15 @@ def abstract_scene(pid, n, m, mode, policy, task, thr, labels, frames, dim):
 # (i) real geometry
 
 
-def real_scene(pid, n, m, mode, policy, task, thr, e_labels, g_labels):
-    """3-D boxes on a line (x symbolic), real matching classes."""
+def real_scene(pid, n, m, mode, policy, task, thr, e_labels, g_labels, mixed_sizes=False):
+    """3-D boxes on a line (x symbolic), real matching classes.  mixed_sizes: boxes of different sizes, so that
+    co-centred objects (equal under DynamicObject.__eq__, which ignores the size) score differently."""
     maximize = MAXIMIZE[mode]
+    sizes = [(1.0, 2.0, 1.0), (1.5, 3.0, 1.0), (0.8, 1.2, 1.0)] if mixed_sizes else [(1.0, 2.0, 1.0)] * 3
     ests = [_mk3d(f"e{i}", FrameID.BASE_LINK, e_labels[i], x=real(f"e{i}_x", lo=-50, hi=50), y=0.0,
-                  size=(1.0, 2.0, 1.0)) for i in range(n)]
+                  size=sizes[i]) for i in range(n)]
     gts = [_mk3d(f"g{j}", FrameID.BASE_LINK, g_labels[j], x=real(f"g{j}_x", lo=-50, hi=50), y=0.0,
-                 size=(1.0, 2.0, 1.0)) for j in range(m)]
+                 size=sizes[(j + 1) % 3]) for j in range(m)]
     thresholds = None
     if thr:
         thresholds = [real(f"thr_{k}", lo=0, hi=1 if maximize else None) for k in range(len(TARGETS))]
@@ -405,6 +410,11 @@ def obligations(pid, tier):
                     for thr in (False, True):
                         rcases.append(dict(n=len(el), m=len(gl), mode=mode, policy=policy, task=task, thr=thr,
                                            e_labels=list(el), g_labels=list(gl)))
+    # co-centred boxes of different size (value-equal objects) under BEV IoU
+    for el, gl in [((CAR, CAR), (CAR,)), ((CAR,), (CAR, CAR))] + ([] if quick else [((CAR, CAR), (CAR, CAR))]):
+        for task in ("detection", "fp_validation"):
+            rcases.append(dict(n=len(el), m=len(gl), mode="iou2d", policy="default", task=task, thr=False,
+                               e_labels=list(el), g_labels=list(gl), mixed_sizes=True))
     obs.append(Obligation("real_geometry", realfn, cases=rcases, extras=_lazy_extras,
                           desc="get_object_results with the real matching classes on boxes along a line",
                           witness_every=1 if quick else 2))
